@@ -327,6 +327,8 @@ def _parity(t, odd, memo):
                 return EVEN
             if ps[0] == ODD and ps[1] in (ODD, ASYM):
                 return ASYM
+            if ps == [EVEN, ASYM]:
+                return ASYM         # atan2(a, e + o) against atan2(a, e - o): neither equal nor opposite (o is not zero)
             return UNK
         if f == 'acos' and ps == [EVEN]:
             return EVEN
